@@ -60,6 +60,7 @@ def normalise(sc):
             nr.setdefault("to", 0)
             nr.setdefault("tie", "random")
             nr.setdefault("cyc", [])
+            nr.setdefault("jock", 0)
     sc.setdefault("T", 10)
     sc.setdefault("stop", "time")
     sc.setdefault("maxc", 0)
@@ -177,6 +178,12 @@ def make_router(ciw, sc, ctx, r, k):
                 routers.append(ciw.routing.Cycle(cycle=list(nr["cyc"])))
             else:
                 raise ValueError(t)
+            if nr.get("jock"):
+                # a user-defined router (documented extension point): reneging customers jockey to node `jock`
+                base = type(routers[-1])
+                jk = nr["jock"]
+                routers[-1].__class__ = type("Jockeying" + base.__name__, (base,),
+                                             {"next_node_for_jockeying": (lambda self, ind, jk=jk: self.simulation.nodes[jk])})
         return ciw.routing.NetworkRouting(routers=routers)
     if kind in ("pb", "fpb"):
         routes = r["routes"]
